@@ -147,6 +147,9 @@ class Contract:
         self.on_raise = kw.pop("on_raise", [])         # clauses checked on every path that leaves by an exception
         self.hide = kw.pop("hide", {})                 # {ghost name: result type}: opaque in this contract only
         self.no_merge = kw.pop("no_merge", [])         # line numbers / True: do not join these `if` branches
+        # ghost assertions ("cuts"): {first line of a statement's source text: [(label, spec-src)]} -- proved as an
+        # obligation in the state before that statement, then available as a hypothesis (never an unproved assumption)
+        self.cuts = kw.pop("cuts", {})
         if kw:
             raise TypeError(f"unknown contract keys {list(kw)}")
         self.requires = [(f"r{i}", c) if isinstance(c, str) else c for i, c in enumerate(self.requires)]
@@ -481,6 +484,19 @@ class Exec:
             self.loop_ord[id(node)] = n
             n += 1
         self.nloops = n
+        # cuts: "text" matches every statement whose source starts with text; "text#k" only the k-th such statement
+        # (0-based, source order)
+        self.cut_map = {}
+        if c.cuts:
+            stmts = sorted((x for x in ast.walk(fdef) if isinstance(x, ast.stmt) and x is not fdef),
+                           key=lambda x: (x.lineno, x.col_offset))
+            for key, clauses in c.cuts.items():
+                base, _, ordn = key.partition("#")
+                hits = [x for x in stmts if ast.unparse(x).split("\n")[0].startswith(base)]
+                if ordn:
+                    hits = hits[int(ordn):int(ordn) + 1]
+                for x in hits:
+                    self.cut_map.setdefault(id(x), []).append((key, clauses))
         self.spec = False
         self.old_env = None
         self.result = None
@@ -762,6 +778,11 @@ class Exec:
 
     def ev_IfExp(self, node, st):
         c = self.truthy(st, self.ev(node.test, st))
+        cs = z3.simplify(c)
+        if z3.is_true(cs):                     # the other branch is not evaluated (Python semantics)
+            return self.ev(node.body, st)
+        if z3.is_false(cs):
+            return self.ev(node.orelse, st)
         st.guards.append(c)
         try:
             a = self.ev(node.body, st)
@@ -951,6 +972,25 @@ class Exec:
             return self.binop(op, a, b, st, node)
         if isinstance(a.ty, T.List) and isinstance(op, ast.Mult):
             raise Unsupported("list repetition outside assignment", node)
+        if isinstance(a.ty, T.List) and isinstance(b.ty, T.List) and isinstance(op, ast.Add):
+            # concatenation: a fresh list, first the elements of a, then those of b
+            lty = T.List(a.ty.t)
+            na, nb = self.h.list_len(st, a.t, a.ty), self.h.list_len(st, b.t, b.ty)
+            r = self.new_obj(st, "concat")
+            self.h.list_set_len(st, r, na + nb, lty)
+            k = z3.Int(T.fresh_name("cc"))
+            got = self.h.list_get(st, lty, r, k)
+            ak = T.coerce(self.h.list_get(st, a.ty, a.t, k), lty.t)
+            bk = T.coerce(self.h.list_get(st, b.ty, b.t, k), lty.t)
+            # stated in both directions so that either side's element term triggers the instance
+            st.pc.append(z3.ForAll([k], z3.Implies(z3.And(k >= 0, k < na), self.equal(got, ak)), patterns=[got.terms[-1]]))
+            st.pc.append(z3.ForAll([k], z3.Implies(z3.And(k >= 0, k < na), self.equal(got, ak)), patterns=[ak.terms[-1]]))
+            st.pc.append(z3.ForAll([k], z3.Implies(z3.And(k >= na, k < na + nb),
+                                                   self.equal(got, T.coerce(self.h.list_get(st, b.ty, b.t, k - na), lty.t))),
+                                   patterns=[got.terms[-1]]))
+            st.pc.append(z3.ForAll([k], z3.Implies(z3.And(k >= 0, k < nb),
+                                                   self.equal(self.h.list_get(st, lty, r, k + na), bk)), patterns=[bk.terms[-1]]))
+            return V(lty, [r])
         x, y = self.num(a), self.num(b)
         both_int = z3.is_int(x) and z3.is_int(y)
         cint = a.cint and b.cint and both_int
@@ -1058,6 +1098,23 @@ class Exec:
     def ev_Subscript(self, node, st):
         base = self.ev(node.value, st)
         if isinstance(node.slice, ast.Slice):
+            sl = node.slice
+            if base.ty is T.Str and sl.upper is None and sl.step is None and isinstance(sl.lower, ast.Constant) \
+                    and sl.lower.value == 1:
+                from . import strings as _s
+                return _s.tail(self, base)
+            if isinstance(base.ty, T.List) and sl.upper is None and sl.step is None and isinstance(sl.lower, ast.Constant) \
+                    and isinstance(sl.lower.value, int) and sl.lower.value >= 0:
+                # xs[c:]: a fresh list holding the elements from position c on
+                c = sl.lower.value
+                lty = T.List(base.ty.t)
+                n = self.h.list_len(st, base.t, base.ty)
+                r = self.new_obj(st, "slice")
+                self.h.list_set_len(st, r, z3.If(n >= c, n - c, 0), lty)
+                k = z3.Int(T.fresh_name("sl"))
+                st.pc.append(z3.ForAll([k], z3.Implies(z3.And(k >= 0, k < n - c), self.equal(
+                    self.h.list_get(st, lty, r, k), T.coerce(self.h.list_get(st, base.ty, base.t, k + c), lty.t)))))
+                return V(lty, [r])
             raise Unsupported("slice", node)
         return self.subscript(base, node.slice, st, node)
 
@@ -1170,8 +1227,10 @@ class Exec:
         got = self.h.list_get(st, lty, r, k)
         st.pc.append(n_res >= 0)
         st.pc.append(n_res <= n_src)
-        st.pc.append(z3.ForAll([k], z3.Implies(z3.And(k >= 0, k < n_res),
-                                               z3.And(f(k) >= 0, f(k) < n_src, cond_k, self.equal(got, T.coerce(elt, lty.t))))))
+        body_k = z3.Implies(z3.And(k >= 0, k < n_res),
+                            z3.And(f(k) >= 0, f(k) < n_src, cond_k, self.equal(got, T.coerce(elt, lty.t))))
+        st.pc.append(z3.ForAll([k], body_k, patterns=[got.terms[-1]]))
+        st.pc.append(z3.ForAll([k], body_k, patterns=[f(k)]))
         k2 = z3.Int(T.fresh_name("ck2"))
         st.pc.append(z3.ForAll([k, k2], z3.Implies(z3.And(0 <= k, k < k2, k2 < n_res), f(k) < f(k2))))
         # completeness: every qualifying source index is selected
@@ -1232,6 +1291,13 @@ class Exec:
         if m is None:
             raise Unsupported(f"statement {type(s).__name__}", s)
         st.pending = []
+        if self.cut_map and not self.spec:
+            for key, clauses in self.cut_map.get(id(s), ()):
+                self.cuts_seen = getattr(self, "cuts_seen", set()) | {key}
+                for lab, src in clauses:
+                    g = self.spec_bool(st, src, dict(st.env), old_state=self.entry_state)
+                    self.oblige(st, "cut", f"{lab}@{getattr(s, 'lineno', 0)}", g, s, src)
+                    st.pc.append(g)
         outs = m(s, st)
         return outs
 
